@@ -228,11 +228,15 @@ def coq_project():
             raise RuntimeError('coq_makefile failed: ' + out)
 
 
-def coq_make(targets, timeout=1500):
+def coq_make(targets, timeout=1500, locked=False):
     """make -k the given .vo targets (paths relative to coq/); returns (ok, failed_files, log)"""
-    with Lock('coq'):
+    if locked:
         coq_project()
         rc, out = run(['make', '-k', '-j%d' % NJOBS] + targets, cwd=COQ, timeout=timeout)
+    else:
+        with Lock('coq'):
+            coq_project()
+            rc, out = run(['make', '-k', '-j%d' % NJOBS] + targets, cwd=COQ, timeout=timeout)
     failed = []
     for m in re.finditer(r'File "\./([^"]+)", line (\d+), characters [^\n]*\nError:?\s*([^\n]*(?:\n(?!File|make|COQC)[^\n]*){0,6})', out):
         failed.append({'file': m.group(1), 'line': int(m.group(2)), 'error': m.group(3).strip()[:600]})
@@ -338,22 +342,25 @@ def proof_phase(ctx, module=None, extra_targets=()):
     Fills ctx.obligations / discharged / axioms / broken. Returns True when every obligation checks."""
     module = module or 'Properties_' + ctx.pid
     vfile = os.path.join(COQ, 'Properties', module + '.v')
-    errs = regen_gen()
-    for f, out in errs:
-        ctx.broken.append('translator %s failed: %s' % (f, out.strip().split('\n')[-1][:200]))
-    targets = ['Properties/%s.vo' % module] + list(extra_targets)
-    ok, failed, out = coq_make(targets)
-    ctx.make_log_tail = out[-3000:]
-    names = theorem_names(vfile) if os.path.exists(vfile) else []
-    ctx.obligations = names
-    if not names:
-        ctx.broken.append('no theorem found in Properties/%s.v' % module)
-    for f in failed:
-        ctx.broken.append('coq: %s:%s %s' % (f['file'], f['line'], f['error'].replace('\n', ' ')[:300]))
-    if os.path.exists(os.path.join(COQ, 'Properties', module + '.vo')) and not any(('Properties/' + module) in b for b in ctx.broken):
-        ass = coq_assumptions('Properties.' + module, names)
-    else:
-        ass = {n: None for n in names}
+    # one lock across translators + make + assumptions: coq/Gen is shared by every check, and a concurrently running check
+    # (possibly with another VERIF_REPO) must not regenerate it in the middle of this proof phase
+    with Lock('coq'):
+        errs = regen_gen()
+        for f, out in errs:
+            ctx.broken.append('translator %s failed: %s' % (f, out.strip().split('\n')[-1][:200]))
+        targets = ['Properties/%s.vo' % module] + list(extra_targets)
+        ok, failed, out = coq_make(targets, locked=True)
+        ctx.make_log_tail = out[-3000:]
+        names = theorem_names(vfile) if os.path.exists(vfile) else []
+        ctx.obligations = names
+        if not names:
+            ctx.broken.append('no theorem found in Properties/%s.v' % module)
+        for f in failed:
+            ctx.broken.append('coq: %s:%s %s' % (f['file'], f['line'], f['error'].replace('\n', ' ')[:300]))
+        if os.path.exists(os.path.join(COQ, 'Properties', module + '.vo')) and not any(('Properties/' + module) in b for b in ctx.broken):
+            ass = coq_assumptions('Properties.' + module, names)
+        else:
+            ass = {n: None for n in names}
     for n in names:
         a = ass.get(n)
         if a is None:
@@ -448,8 +455,11 @@ def prune_cache(name, keep):
     ents = [os.path.join(root, e) for e in os.listdir(root) if e.startswith(name + '-')]
     ents = [e for e in ents if e != keep]
     ents.sort(key=lambda e: os.path.getmtime(e))
-    for e in ents[:-1]:
-        shutil.rmtree(e, ignore_errors=True)
+    now = time.time()
+    for e in ents[:-3]:
+        # never remove a directory another process may still be building in
+        if now - os.path.getmtime(e) > 3600:
+            shutil.rmtree(e, ignore_errors=True)
 
 
 def ocaml_driver(name, extract_target, ml_sources, timeout=600):
